@@ -151,6 +151,18 @@ CHECKS["C17"] = (
     "DESIGN.md 6 (C17)",
 )
 
+CHECKS["C18"] = (
+    "model_checking",
+    "explicit-state exploration of all add_field/commit histories (every split of every bounded field sequence into commit steps) on real classes, differential against the one-shot definition at every committed state",
+    "For every field sequence (leading uint8 + <=2 atoms over the 26 core atoms, + 3 atoms over 12 representatives; thorough 3/4) and each of the "
+    "2^(m-1) ways to split it into single add_field calls and start_update batches, on a pre-registered empty structure (compiled when "
+    "requested), both layouts: after every commit the class equals the structure declared in one piece with the same fields in layout, "
+    "compiled flag, parse results incl. recorded sizes and consumed bytes (stream offsets 0 and 1), dumps, defaults, ==/hash/bool, __init__ "
+    "signature and keyword construction. Self-referential structures equal their void* twin (3 pointer widths, both readers/layouts) and "
+    "dereference to themselves; repeated padding names work in every split.",
+    "DESIGN.md 5.1, 6 (C18)",
+)
+
 NOT_APPLICABLE = {}
 
 
